@@ -183,6 +183,10 @@ pub fn run(tier: Tier) -> i32 {
             if tier == Tier::Quick && a.fileno != b.fileno && !(a.f / 2 == b.f / 2) {
                 continue;
             }
+            // quick: the second file-number class (7) only for pairs that share a file, a detector or a byte length
+            if tier == Tier::Quick && a.fileno == 7 && b.fileno == 7 && !(a.f == b.f || a.d == b.d || a.f / 2 == b.f / 2) {
+                continue;
+            }
             histories.push(vec![*a, *b]);
         }
     }
